@@ -626,6 +626,25 @@ def coll_oracle(interp, env, f, args, t, bb, path):
             return max(0, hi - lo)
         if nm in ("map", "filter", "collect", "rev", "skip", "take", "zip", "enumerate", "for_each", "all", "any", "cloned", "step_by", "chain", "sum", "min", "max", "flat_map", "filter_map", "fold", "try_fold", "reduce", "position", "find", "count", "last", "nth", "min_by_key", "max_by_key", "product") and hi - lo <= 64:
             v0 = It(list(range(lo, hi)))
+    if dk in ("core::iter::sources::once::once", "core::iter::once") and args:
+        return It([args[0]])
+    if dk in ("core::iter::sources::empty::empty", "core::iter::empty"):
+        return It([])
+    if dk in ("core::iter::sources::successors::successors", "core::iter::successors") and len(args) == 2:
+        out = []
+        cur = args[0]
+        for _ in range(64):
+            cur = load(interp, env, cur) if isinstance(cur, Ref) else cur
+            if not (isinstance(cur, Agg) and cur.name == "core::option::Option"):
+                return TOP
+            if cur.variant == "None":
+                return It(out)
+            out.append(cur.fields[0])
+            tmp = new_vec(interp, [cur.fields[0]])
+            cur = _call1(interp, args[1], [HRef(tmp.vid, 0)])
+            if cur is None:
+                return TOP
+        return TOP
     if dk in ("core::iter::sources::repeat::repeat", "core::iter::repeat"):
         return Agg("repeat", None, None, [args[0]])
     if dk in ("core::iter::sources::repeat_with::repeat_with", "core::iter::repeat_with"):
